@@ -532,6 +532,28 @@ class Ledger:
             if now + tmo > hw["abs"]:
                 res.v("C16", "after a HUP that interrupted its sleep the daemon plans to wake at %d, %d s later than before the signal (%d); now %d, timeout %d"
                       % (now + tmo, now + tmo - hw["abs"], hw["abs"], now, tmo))
+        # a message all of whose recipient lists are finished (state mess+info only, no notice owed) is due for removal NOW: the daemon never
+        # blocks with a positive timeout while one is there. Also judged (tag C16-done) under a single failing stat(), for messages that have
+        # been through a delivery and that the failing stat() did not concern (added after seeded change C16-I)
+        md = self.sc["mode"]
+        stat_fault = md["kind"] == "fault" and md.get("cls") == "stat"
+        if not self.disorder and not self.w.outstanding and (not self.fault_or_crash or stat_fault):
+            for n, files in snap.items():
+                if set(files) != {"mess", "info"}:
+                    continue
+                if stat_fault:
+                    if not any(k[0] == n and any(r[3] == self.w.incarnation for r in v) for k, v in self.reports.items()):
+                        continue
+                    # the failing stat() concerned this very message (messdone looks at local/remote/todo/info/bounce first): it is put
+                    # aside for SLEEP_SYSFAIL, documented
+                    hit = [e for e in self.w.h.read_trace() if e["call"] == "stat" and e["a"] and e["a"][-1] == "FAULT"]
+                    if not hit or any(e["a"][0].endswith("/%d" % n) for e in hit):
+                        continue
+                self.res.classes.add("finished_message_seen_at_block")
+                msg = "message %d is finished (mess+info only) but the daemon blocks for %d s instead of removing it: it sleeps past a due event" % (n, tmo)
+                if not self.fault_or_crash:
+                    res.v("C16", msg)
+                res.v("C16-done", msg)
         # never sleep past the earliest due retry of a message that is not in a job and has a free slot
         for (n, c), pl in self.passes.items():
             if n not in snap or not pl:
@@ -661,8 +683,10 @@ def run_scenario(tree, wpath, sc, maxq=None, world=None):
     finishing = False
     ncmd_seen = 0
     idle_advances = 0
+    inc0 = w.incarnation
+    fault_inc = mode.get("inc", 1) if mode["kind"] == "fault" else 1     # which start of the daemon (1 = the first) runs under the fault
     try:
-        w.start(crash=crash, fault=fault)
+        w.start(crash=crash, fault=fault if fault_inc == 1 else None)
         while True:
             if w.qcount > maxq or (idle_advances > 8 and 0 in (led.limit(0), led.limit(1)) and not finishing):
                 st, bad, pids = w.h.snapshot()
@@ -741,7 +765,8 @@ def run_scenario(tree, wpath, sc, maxq=None, world=None):
                 used["restart"] += 1
                 if used["restart"] > 6:
                     break
-                w.start()
+                # a restarted daemon runs under the injected fault when the mode names this start ("inc"): start-up code paths under failure
+                w.start(fault=fault if fault is not None and w.incarnation - inc0 + 1 == fault_inc and fault_inc > 1 else None)
                 continue
             # ---- quiescent point
             info = ev[1]
@@ -773,6 +798,8 @@ def run_scenario(tree, wpath, sc, maxq=None, world=None):
             else:
                 if "answer" in acts:
                     enabled += [("answer", i) for i in range(min(len(w.outstanding), 4))]
+                if "answer2" in acts and len(w.outstanding) >= 2:
+                    enabled.append(("answer2",))          # two reports reach the daemon in the same loop iteration
                 if pending and "inject" in acts:
                     enabled.append(("inject",))
                 if "advance" in acts:
@@ -821,13 +848,15 @@ def run_scenario(tree, wpath, sc, maxq=None, world=None):
                 else:
                     act = ("advance_due",)
             # ---- perform
-            if act[0] == "answer":
-                cmd = w.outstanding[act[1]]
-                text, dying = choose_report(sc, led, cmd, attempt, texts)
-                led.on_report(cmd, text, dying)
-                w.report(cmd, text)
-                if text[:1] not in (b"K",):
-                    res.classes.add("outcome_" + (text[:1].decode("latin-1") if text[:1] in (b"Z", b"D") else "garbage"))
+            if act[0] in ("answer", "answer2"):
+                for cmd in ([w.outstanding[act[1]]] if act[0] == "answer" else list(w.outstanding[:2])):
+                    text, dying = choose_report(sc, led, cmd, attempt, texts)
+                    led.on_report(cmd, text, dying)
+                    w.report(cmd, text)
+                    if text[:1] not in (b"K",):
+                        res.classes.add("outcome_" + (text[:1].decode("latin-1") if text[:1] in (b"Z", b"D") else "garbage"))
+                if act[0] == "answer2":
+                    res.classes.add("two_reports_in_one_iteration")
                 w.resume()
             elif act[0] == "inject":
                 mi, m = pending.pop(0)
